@@ -416,7 +416,7 @@ where
 }
 
 pub fn run(ctx: &Ctx, rep: &mut Report) {
-    let per = ctx.pick(1 << 14, 1 << 20);
+    let per = ctx.pick(1 << 16, 1 << 20);
     run_type::<P8E0>(ctx, rep, per);
     run_type::<P16E1>(ctx, rep, per);
     run_type::<P32E2>(ctx, rep, per);
